@@ -64,10 +64,15 @@ A1Obj == Obj("p", "A1", TString)
 A2Obj == Obj("p", "A2", TRef("p", "A1"))
 
 Positions == {"field", "optfield", "object"}
+\* the SAME type used twice in one struct, required then optional and the other way round (shapes of length <= 1 only): a pass that
+\* remembers what it made of a type must still give each use its own required-ness / nullability
+TwicePositions == {"twice", "twicerev"}
 CaseIR(shape, leaf, pos) ==
   LET t == TypeOf(shape, leaf)
       root == CASE pos = "field"    -> Obj("p", "Root", TStruct(<<Field("f", t, TRUE)>>))
                 [] pos = "optfield" -> Obj("p", "Root", TStruct(<<Field("f", t, FALSE)>>))
+                [] pos = "twice"    -> Obj("p", "Root", TStruct(<<Field("f", t, TRUE), Field("g", t, FALSE)>>))
+                [] pos = "twicerev" -> Obj("p", "Root", TStruct(<<Field("g", t, FALSE), Field("f", t, TRUE)>>))
                 [] pos = "object"   -> Obj("p", "Root", t)
       \* a second package holding the SAME type under test (objects generated from it must exist in BOTH packages)
       mirror == Obj("q", "Mirror", TStruct(<<Field("m", t, TRUE)>>))
@@ -75,6 +80,8 @@ CaseIR(shape, leaf, pos) ==
 
 Cases == {[shape |-> s, leaf |-> l, pos |-> ps] :
             s \in {x \in Shapes(MaxDepth) : TRUE}, l \in DOMAIN Leaves, ps \in Positions}
+         \cup {[shape |-> s, leaf |-> l, pos |-> ps] :
+            s \in {x \in Shapes(MaxDepth) : Len(x) <= 1}, l \in DOMAIN Leaves, ps \in TwicePositions}
 
 Init == c \in {x \in Cases : InSlice(x.shape, x.leaf)}
 Next == UNCHANGED c
